@@ -300,17 +300,21 @@ Print log_bad.''']
 
     # ---------------------------------------------------------------- 3. init on existing stores / fresh dirs / over a file
     init_rows = []
-    targets = [(d, None) for d in sorted(stores)]                                   # `ergo init` inside the project
-    targets += [(os.path.join(top, 's_plans'), '../s_legacy'), (top, 's_both/'), (top, './s_empty/.')]   # `ergo init <dir>`
-    targets += [(top, 'fresh/deeper'), (os.path.join(top, 's_file'), None), (top, 's_file/f.txt'), (top, 's_file/sub')]
+    targets = [(d, None, None) for d in sorted(stores)]                                   # `ergo init` inside the project
+    targets += [(os.path.join(top, 's_plans'), '../s_legacy', None), (top, 's_both/', None), (top, './s_empty/.', None)]   # `ergo init <dir>`
+    targets += [(top, 'fresh/deeper', None), (os.path.join(top, 's_file'), None, None), (top, 's_file/f.txt', None), (top, 's_file/sub', None)]
+    # `--dir X init`: the global flag does not redirect init (it initialises the current directory); every spelling of
+    # the store's own .ergo, the project, a sub-directory
+    for d in sorted(stores)[:4]:
+        targets += [(d, None, '.ergo'), (d, None, '.ergo/'), (d, None, d + '/.ergo/'), (d, None, '.'), (d, None, d), (d, None, './.ergo/.')]
     snap_before = {}
-    for j, (cwd, arg) in enumerate(targets):
+    for j, (cwd, arg, dflag) in enumerate(targets):
         proj = os.path.normpath(os.path.join(cwd, arg or '.'))
         target = os.path.join(proj, '.ergo')
         before = snapshot_store(proj) if os.path.isdir(proj) else None
         # the model must be asked about the fs as it is NOW (earlier inits changed it)
         dnow, fnow = scan(top)
-        rc, out, err = run(['init'] + ([arg] if arg else []), cwd)
+        rc, out, err = run((['--dir', dflag] if dflag else []) + ['init'] + ([arg] if arg else []), cwd)
         probe = [os.path.join(target, x) for x in ('plans.jsonl', 'events.jsonl', 'lock')] + [target, proj]
         if rc == 0:
             obs = 'Some [' + ';'.join('(%s, %s)' % ('true' if os.path.isdir(p) else 'false', 'true' if os.path.isfile(p) else 'false') for p in probe) + ']'
@@ -330,7 +334,7 @@ Print log_bad.''']
             if before[1] != after[1]:
                 problems.append('init in %s (%s): list --all changed: %r -> %r' % (proj, stores[proj], before[1], after[1]))
             # second init: nothing at all changes
-            run(['init'] + ([arg] if arg else []), cwd)
+            run((['--dir', dflag] if dflag else []) + ['init'] + ([arg] if arg else []), cwd)
             again = snapshot_store(proj)
             if again != after:
                 problems.append('second init in %s changed something' % proj)
